@@ -452,8 +452,18 @@ fn transforms<F: FftField + PrimeField, D: Kind<F>>(rep: &mut Report, rng: &mut 
         let n_off = if n <= 256 { 5 } else { args.pick(3, 5) };
         for (h, hname) in offsets::<F>(rng, g, n, n_off) {
             let coset = !h.is_one();
-            let dom = if coset {
-                match rep.total(&format!("domain/{}/get_coset", D::KIND), det0, || base.get_coset(h)) {
+            // half of the time the domain is reached through another coset first: get_coset replaces the offset,
+            // so the result must be the same domain (a stale offset^size would show in the vanishing polynomial)
+            let via = rng.next_u32() % 2 == 0;
+            let h2 = loop {
+                let x = F::rand(rng);
+                if !x.is_zero() {
+                    break x;
+                }
+            };
+            rep.class_if(via, "domain obtained by get_coset on a coset");
+            let dom = if coset || via {
+                match rep.total(&format!("domain/{}/get_coset", D::KIND), det0, || if via { base.get_coset(h2).and_then(|c| c.get_coset(h)) } else { base.get_coset(h) }) {
                     Some(Some(d)) => d,
                     Some(None) => {
                         rep.violation(sig::<F, D>("get_coset", "none-for-nonzero-offset"), json!({"field": fname, "size": n, "offset": fe(&h)}));
@@ -932,6 +942,7 @@ fn add_field<F: FftField + PrimeField>(v: &mut Vec<(u64, Item)>, fname: &'static
                 r.require(C_EMPTY);
                 r.require(C_SIZE1);
                 r.require(C_COSET);
+                r.require("domain obtained by get_coset on a coset");
                 if radix_small {
                     r.require(C_DA);
                     r.require(C_PLAIN);
